@@ -1,5 +1,8 @@
 /* h_printf_body.h - common body of the generated printf harnesses (families/printf.py writes the per-skeleton part:
  * FMT, VH_INPUTS, setup_args(), call_fn(), reference(), HAS_PCT_N, sentinels).  Included after those definitions. */
+#if !VH_CBMC
+#include <locale.h>
+#endif
 #ifndef DCAP
 #define DCAP 32
 #endif
@@ -9,6 +12,9 @@ char vh_cap[DCAP + 8];
 unsigned vh_cap_n;
 
 VH_MAIN_BEGIN
+#if !VH_CBMC
+    setlocale(LC_ALL, "C.UTF-8"); /* the locale the models of wctomb/wcstombs stand for */
+#endif
     size_t dmax = in.dmax;
 #ifdef FIX_DMAX
     dmax = in.dmax = FIX_DMAX;
